@@ -25,7 +25,8 @@ Funcs == UNION {{[k |-> "func", params |-> ps, res |-> r] : ps \in [1..n -> AT],
          \cup {[k |-> "func", params |-> ps, res |-> B("int")] : ps \in [1..3 -> {B("int"), B("string")}]}
 Vars == {[k |-> "var", t |-> t] : t \in {B("int"), B("string"), B("bool")}}
 
-Decls == Records \cup Unions \cup Funcs \cup Vars
+LamVars == UNION {{[k |-> "lamvar", params |-> ps, res |-> r] : ps \in [1..n -> {B("int"), B("string")}], r \in {B("int"), B("string")}} : n \in 1..2}
+Decls == Records \cup Unions \cup Funcs \cup Vars \cup LamVars
 Rows == {[k |-> d.k, fo |-> Fo(d), asserts |-> Surface(d)] : d \in Decls}
 ASSUME ndJsonSerialize(OutFile, SetToSeq(Rows))
 ASSUME PrintT(<<"CASES", Cardinality(Rows)>>)
